@@ -13,8 +13,8 @@ CFG = {
             "sampled in the quick tier, complete in thorough), edge order and end-point order shuffled; random: n <= 40, DAGs, near-DAGs, "
             "rings, islands, loop/parallel-heavy, out-of-range end points, weight regimes all-zero / all-equal / many ties / wide / 2^20; "
             "big: chains, stars, in-stars, reversed and double chains of 1020..1030 vertices (list block size 1024). "
-            "Every implementation answer is validated by the extracted checkers (check_path, check_cycle, check_topo, check_scc, check_spt: "
-            "proved sound; check_msf: certificate checker, soundness only partially proved) and against independent references (Floyd-Warshall hop counts and distances, Kruskal weight); exact "
+            "Every implementation answer is validated by the extracted checkers (check_path, check_cycle, check_topo, check_scc, check_spt, "
+            "check_msf: all proved sound) and against independent references (Floyd-Warshall hop counts and distances, Kruskal weight); exact "
             "equality with the model's tie-breaking is a fidelity observable (not compared for Prim/Dijkstra trees: abstract priority queue). "
             "Non-trivial = at least two valid edges and one query; distinct = digest of (kind, n, op list).",
     "assumptions": ["edge weights are integers in [0, 2^20], so every float64 sum/comparison in Prim/Dijkstra/Weight() is exact",
